@@ -3228,7 +3228,7 @@ class SSHConnection(SSHPacketHandler, asyncio.Protocol):
 
             self.logger.info('  Forwarding TCP connection to %s',
                              (dest_host, dest_port))
-        except OSError as exc:
+        except (OSError, OverflowError) as exc:
             raise ChannelOpenError(OPEN_CONNECT_FAILED, str(exc)) from None
 
         return SSHForwarder(cast(SSHForwarder, peer))
